@@ -110,8 +110,12 @@ def run(chk):
         cname = rng.choice(list(CLASSES))
         chain, cdr, allowed = CLASSES[cname]
         w = {"iw": 1, "dw": 1, "sw": 1, "aw": 1, "bw": 1, "c1": 1, "c2": 1, "c3": 1}
-        mode = rng.choice(["default", "one", "joint", "uniform"])
-        if mode == "one":
+        mode = rng.choice(["default", "one", "joint", "uniform", "mixed"]) if t >= 8 else "mixed"
+        if mode == "mixed":
+            # every run: gap weights sharing a factor the substitution weight lacks; a substitution weight strictly between one and two
+            # gap weights; unequal gap weights
+            w["iw"], w["dw"], w["sw"] = [(2, 2, 3), (3, 3, 4), (3, 3, 5), (4, 4, 7), (2, 4, 3), (2, 2, 1), (1, 3, 2), (3, 1, 2)][t % 8]
+        elif mode == "one":
             k = rng.choice(allowed)
             w[k] = rng.randint(2, 7)
         elif mode == "joint":
@@ -119,6 +123,9 @@ def run(chk):
                 w[k] = rng.randint(1, 6)
         elif mode == "uniform":
             w["iw"] = w["dw"] = w["sw"] = rng.choice([2, 3, 5])       # equal edit weights other than 1 scale every distance
+        if t < 8:
+            cname = list(CLASSES)[t % len(CLASSES)]
+            chain, cdr, allowed = CLASSES[cname]
         kwargs = {KW[k]: w[k] for k in allowed if w[k] != 1 or rng.random() < 0.3}
         metric = getattr(tm, cname)(**kwargs)
         A, ka = table(rng.randint(1, 12))
@@ -135,6 +142,10 @@ def run(chk):
         checks.append(("cdist", meta, rc, unchanged, (ma, mb)))
         ops.append({"op": "tcr_pdist", "chain": chain, "cdr": cdr, "w": wl, "xs": ma})
         checks.append(("pdist", meta, rp, unchanged, (ma, None)))
+        # the SAME table object on both sides: every cell (with unequal gap weights the matrix is not symmetric)
+        rs = core.call_real(lambda: np.asarray(metric.calc_cdist_matrix(A, A)))
+        ops.append({"op": "tcr_cdist", "chain": chain, "cdr": cdr, "w": wl, "as": ma, "bs": ma})
+        checks.append(("cdist", {**meta, "comparisons": "the same object as anchors"}, rs, A.equals(A0), (ma, ma)))
         # row order invariance on the real code: permuting the rows permutes the matrix
         if len(A) > 1 and rc[0] == "ok":
             perm = rng.sample(range(len(A)), len(A))
